@@ -187,12 +187,28 @@ def run(ctx: Ctx):
             col.ob("G4", "S5", f"{wwhere}::{n.targets[0].id}=prefix+id+suffix",
                    isinstance(n.value, ast.BinOp) and u(n.value).startswith("file_prefix + ") and u(n.value).endswith(" + file_suffix"),
                    f"`{u(n)}` is not file_prefix + <id> + file_suffix", wrel, n.lineno, sample=u(n))
-    # each saved row is cut with the length returned by the same chunker call
-    chunk_unpacks = {}
+    # each saved row is cut with the length returned by the same chunker call. Roles by dataflow: a variable's kind
+    # (feat/ali/ref) is the in_<kind>_dir parameter its value derives from (not following the slice tensor).
+    inst = {}  # local name -> constructed module class
     for d in rdw.defs:
-        if d.kind == "unpack" and isinstance(d.value, ast.Call) and isinstance(d.value.func, ast.Name) \
-                and d.value.func.id in ("chunker", "ref_chunker"):
-            chunk_unpacks.setdefault(id(d.stmt), {})[d.slot] = d
+        if d.kind == "assign" and isinstance(d.value, ast.Call) and call_name(d.value) in ctor_want:
+            inst[d.name] = call_name(d.value)
+    slicer_names = {k for k, v in inst.items() if v == "SliceSpectData"}
+    slices_defs = {id(d) for d in rdw.defs if d.kind == "unpack" and isinstance(d.value, ast.Call)
+                   and call_name(d.value) in slicer_names and d.slot == (0,)}
+
+    def kind_of(e):
+        der = rdw.derives(e, stop=lambda d: id(d) in slices_defs)
+        ks = {p_[3:-4] for p_ in der.params() if p_.startswith("in_") and p_.endswith("_dir")}
+        return ks.pop() if len(ks) == 1 else None
+
+    asserts_eq = []
+    for x in own_nodes(work.node):
+        if isinstance(x, ast.Assert):
+            for c_ in ast.walk(x.test):
+                if isinstance(c_, ast.Compare) and len(c_.ops) == 1 and isinstance(c_.ops[0], ast.Eq) \
+                        and isinstance(c_.left, ast.Name) and isinstance(c_.comparators[0], ast.Name):
+                    asserts_eq.append({c_.left.id, c_.comparators[0].id})
     n_saves = 0
     for c in own_calls(work.node):
         if call_name(c) == "torch.save" and isinstance(c.args[0], ast.Subscript):
@@ -206,34 +222,36 @@ def run(ctx: Ctx):
             if ln is None or not isinstance(data, ast.Name):
                 continue
             n_saves += 1
-            ld = rdw.derives(ln)
+            kind = kind_of(data)
             dd = rdw.defs_of(data)
             data_stmts = {id(d.stmt) for d in dd if d.kind == "unpack" and d.slot == (0,)}
-            len_stmts = {id(d.stmt) for d in ld.defs if d.kind == "unpack" and d.slot == (1,)}
-            same_kind_ok = bool(data_stmts & len_stmts)
-            if not same_kind_ok and data.id == "alis":
-                # alis is cut with the feats' lens, asserted equal to its own (lens == lens_)
-                same_kind_ok = any(isinstance(x, ast.Assert) and "lens" in u(x.test) for x in own_nodes(work.node)) \
-                    and "lens" in u(ln) and "ref" not in u(ln)
+            lnames = [x for x in ast.walk(ln) if isinstance(x, ast.Name)]
+            len_defs = [d for x in lnames for d in rdw.defs_of(x) if d.kind == "unpack" and d.slot == (1,)]
+            len_stmts = {id(d.stmt) for d in len_defs}
+            same_ok = bool(data_stmts & len_stmts)
+            if not same_ok:
+                # accepted only if asserted equal to the length of this tensor's own chunker call
+                own_len = {d.name for d in rdw.defs if d.kind == "unpack" and d.slot == (1,) and id(d.stmt) in data_stmts}
+                used = {d.name for d in len_defs}
+                same_ok = any(a & own_len and a & used for a in asserts_eq)
             dirn = u(c.args[1].args[0]) if isinstance(c.args[1], ast.Call) and c.args[1].args else ""
-            kind = "feat" if data.id.startswith("feat") else ("ali" if data.id.startswith("ali") else "ref")
-            col.ob("G16", "S5", f"{wwhere}::save({data.id})[:len]->{dirn}", same_kind_ok and f"out_{kind}_dir" == dirn,
+            col.ob("G16", "S5", f"{wwhere}::save({kind})[:len]->{dirn}", same_ok and f"out_{kind}_dir" == dirn,
                    f"`{u(c)[:100]}`: the chunk must be cut with the length returned by its own chunker call and "
                    f"written to out_{kind}_dir", wrel, c.lineno, sample=u(c)[:120])
     col.floor("driver_save_sites", n_saves, 3)
     # the slicer is fed the tensor matching the policy
     feeds = {}
     for n in own_nodes(work.node):
-        if isinstance(n, ast.Assign) and isinstance(n.value, ast.Call) and call_name(n.value) == "slicer":
+        if isinstance(n, ast.Assign) and isinstance(n.value, ast.Call) and call_name(n.value) in slicer_names:
             gs = guards_of(pm_of(work), n)
             key = None
             for t, polr in gs:
                 if isinstance(t, ast.Compare) and u(t.left) == "policy" and polr:
                     key = t.comparators[0].value
-            feeds[key] = u(n.value.args[0]) if n.value.args else None
-    col.ob("G16", "S5", f"{wwhere}::slicer-input-by-policy", feeds == {"fixed": "feats", "ali": "alis", None: "refs"},
-           f"the slicer is fed {feeds}; expected feats for 'fixed', alis for 'ali', refs otherwise", wrel, work.line,
-           sample={str(k): v for k, v in feeds.items()})
+            feeds[key] = kind_of(n.value.args[0]) if n.value.args else None
+    col.ob("G16", "S5", f"{wwhere}::slicer-input-by-policy", feeds == {"fixed": "feat", "ali": "ali", None: "ref"},
+           f"the slicer is fed {feeds}; expected the features for 'fixed', the alignments for 'ali', the references otherwise",
+           wrel, work.line, sample={str(k): v for k, v in feeds.items()})
 
     # ---- S6 known-rank contradictions; return arity ----------------------------------------------------------------
     for f in (sl, ch):
@@ -312,9 +330,9 @@ def _mutants():
         M("worker-partial-retain-swapped", C, "ChunkTokenSequencesBySlices(partial_tokens, retain_token_boundaries)", "ChunkTokenSequencesBySlices(retain_token_boundaries, partial_tokens)",
           "ChunkTokenSequencesBySlices("),
         M("refs-cut-with-feat-lens", C, "torch.save(refs[n, :ref_lens[n]], os.path.join(out_ref_dir, out_basename))", "torch.save(refs[n, :lens[n]], os.path.join(out_ref_dir, out_basename))",
-          "save(refs)"),
+          "save(ref)"),
         M("alis-into-ref-dir", C, "torch.save(alis[n, :lens[n]], os.path.join(out_ali_dir, out_basename))", "torch.save(alis[n, :lens[n]], os.path.join(out_ref_dir, out_basename))",
-          "save(alis)"),
+          "save(ali)"),
         M("out-basename-no-prefix", C, "out_basename = file_prefix + new_utt_id + file_suffix", "out_basename = new_utt_id + file_suffix", "out_basename=prefix+id+suffix"),
         M("dispatch-args-swapped", C, "options.partial_tokens, options.retain_token_boundaries, options.quiet", "options.retain_token_boundaries, options.partial_tokens, options.quiet", "G1"),
         M("twin:rename-mask", F, "chunked_lens", "kept", "", -1, twin=True),
